@@ -2,6 +2,7 @@ import vlib
 
 class P(vlib.Prop):
     id = "C11"
+    watch = ("pkg/sbom/generator/spdx/spdx.go", "pkg/build/sbom.go", "pkg/sbom/options/options.go")
     rule = ("ident stage: stringToIdentifier on hand-picked strings, all 256 single bytes (alone and embedded), random byte strings; "
             "generate stage: the real spdx.Generate on a corpus of corners (no image digest, several layers, colliding identifiers, "
             "embedded SBOMs located by each of the three candidate paths, unparseable / directory / missing-element documents, chains and "
@@ -17,6 +18,7 @@ class P(vlib.Prop):
         dict(name="index", cmd="c11", args=lambda t, s: ["-stage", "index"]),
         dict(name="repl", cmd="c11", args=lambda t, s: ["-stage", "repl"]),
         dict(name="copy", cmd="c11", args=lambda t, s: ["-stage", "copy"]),
+        dict(name="e2e", cmd="c11", args=lambda t, s: ["-stage", "e2e"]),
     )
     assumptions = (
         "names, versions and embedded documents are valid UTF-8 (encoding/json replaces invalid bytes by U+FFFD on the way out); stringToIdentifier itself is checked on arbitrary bytes",
